@@ -568,6 +568,18 @@ func execCase(ops []string) (out []string) {
 				guard(line, func() string { ms, err := r.jn.Finish(); return r.joinOut(ms, err, true) })
 			}
 		case "task":
+			if t[1] == "bin" {
+				continue // an observation of an earlier run (regenerated by `task run`)
+			}
+			if t[1] == "run" && r.tasks != nil && r.tasks.kind == "joinb" {
+				obs := ""
+				guard(line, func() string { obs = r.taskOp(t); return obs })
+				// the batches that entered the join go in front of the result line
+				last := out[len(out)-1]
+				out = append(out[:len(out)-1], r.tasks.inputs...)
+				out = append(out, last)
+				continue
+			}
 			if t[1] == "w" && r.tasks != nil {
 				// oracle value: the group ID the from()/groupBy() nodes give the point (models.ToGroupID, C06's subject)
 				m := kv(t[4:])
